@@ -12,6 +12,7 @@ import PPProofs.Props.C11Deep
 #print axioms PP.PR.sum_is_fold
 #print axioms PP.PR.concat_assoc_former_witness
 #print axioms PP.PR.from_dict_item_step
+#print axioms PP.PRHeap.deepcopyLoop_eq
 #print axioms PP.PRHeap.deepcopy_tokens_fresh
 #print axioms PP.PRHeap.deepcopy_frame_tokens
 #print axioms PP.PRHeap.deepcopy_frame_tokens_many
